@@ -88,8 +88,16 @@ def note_distribution(st, recipe, geo, bm):
         h['NoDup layer names and column names'] += 1
     conv = geo.convention
     if all(geo.layer_name(L.own_block_name(conv, l.name, c.name)) == l.name and geo.column_name(L.own_block_name(conv, l.name, c.name)) == c.name
-           for l in lays[1:2] + lays[-1:] for c in geo.columnlist):
-        h['names_decode (sampled on first and last layer)'] += 1
+           for l in lays[1:] for c in geo.columnlist):
+        h['names_decode (every rock layer x column)'] += 1
+    if len(lays) > 1: h['at least one rock layer'] += 1
+    if all(float(con.node[0].pos[0]) != float(con.node[1].pos[0]) or float(con.node[0].pos[1]) != float(con.node[1].pos[1]) for con in geo.connectionlist):
+        h['edges_wf (end points of every shared edge differ)'] += 1
+    colset = set(id(c) for c in geo.columnlist)
+    if all(id(con.column[0]) in colset and id(con.column[1]) in colset for con in geo.connectionlist):
+        h['connection columns are columns of the geometry'] += 1
+    if geo.atmosphere_type in (0, 1, 2): h['atmosphere_type in 0..2'] += 1
+    if not (geo.gdcx or geo.gdcy): h['untilted (hypothesis of the dircos theorems only)'] += 1
 
 
 def check_batch(ctx, exe, st, cases, label):
@@ -179,7 +187,7 @@ def run(ctx):
                 'and layer refinements, then rotated/translated, atmosphere type 0/1/2, block order None/layer_column/dmplex, permeability angle, GDCX/GDCY tilt, '
                 'atmosphere volume/connection, explicit column surfaces (default; on a layer boundary; above the top layer; thin slivers; inside the bottom layer; sloping), '
                 'no block map / empty / partial / total block map.  A case is distinct by its recipe and non-trivial when the grid has rock blocks.')
-    ctx.trusted += ['Coq 8.16.1 kernel (coqc); vm_compute only on closed terms inside Example proofs; no native_compute',
+    ctx.trusted += ['Coq 8.16.1 kernel (coqc); vm_compute only on closed terms inside Example proofs; no native_compute; Props.v is axiom-free, PropsR.v (the same connection statements read in R with sqrt) uses the stdlib axioms of the classical reals',
                     'coq/C04/FromGeo.v: hand transcription of mulgrids.py 790-881, 1381-1455, geometry.line_projection and t2grids.py 282-318, 341-434 (validated on every run by the correspondence, not derived from the source)',
                     'exact rational arithmetic stands for IEEE double arithmetic (difference measured per run: all compared quantities agree to 1e-9 relative + 2e-13 of the cancellation scale)',
                     'extraction: ExtrOcamlBasic + ExtrOcamlString, OCaml 4.13.1, ocaml/main.ml; Base/Wire.v unhex/z_of_str',
@@ -190,12 +198,12 @@ def run(ctx):
                         'the atmosphere layer has zero thickness and layers are contiguous (identify_layer_tops), every column surface lies above the bottom of the last layer',
                         'square roots are outside the model: distances, areas and cosines that involve a norm are carried as coef*sqrt(rad) with rational coef, rad']
     ctx.stage()
-    ok = ctx.coq_build(props=('Props.v',), timeout=1200)
+    ok = ctx.coq_build(props=('Props.v', 'PropsR.v'), timeout=1200)
     exe = vf.build_driver(ctx)
     st = Stats()
     seedpick = ['g5', 'g6', 'g1', 'g3'][ctx.seed % 4]
     if ctx.thorough:
-        sweep(ctx, exe, st, 5000, ['g7', 'g1', 'g3', 'g5', 'g6', 'g2', 'g4'], 2)
+        sweep(ctx, exe, st, 3000, ['g7', 'g1', 'g3', 'g5', 'g6', 'g2', 'g4'], 2)
     else:
         sweep(ctx, exe, st, 200, ['g7', seedpick], 1)
     ctx.extra['input_distribution'] = dict(sorted(st.dist.items()))
